@@ -22,14 +22,16 @@ Definition C05_roundtrip_full_statement : Prop :=
    builtin class; dict / OrderedDict / defaultdict (factory a type or None) with str / int / float / numpy-number keys
    whose JSON spellings are pairwise distinct and which k_type(key) maps back (incl. the key_types lists, whose repeated
    type objects are met as memoised nodes); slices with None/int/bool/str bounds; function (ufunc) and type names;
-   attrgetter / itemgetter (operator helpers whose __reduce__ tuple the constructor accepts).
+   attrgetter / itemgetter (operator helpers whose __reduce__ tuple the constructor accepts); numpy arrays and numpy
+   scalars (opaque token in an <id>.npy member), scipy sparse matrices (<id>.npz), dtypes (through the carrier array
+   the dumper creates), masked arrays, RandomState and Generator (through their state dicts), functools.partial.
+   A shared array is written once and referenced from every occurrence (member lookup by name: ShowFacts.show_Z_inj).
    Sharing is arbitrary: any sub-object (and CPython's cached small ints, type objects, ...) may occur any number of
    times (a DAG); the only requirement is that one label denotes one object (objs_wf: decidable).  The state get_state
    emits is loaded by get_tree + construct to exactly v, identity labels included -- the same sharing.
    c05_guard = fragb (the fragment) && objs_wf (labels) && need v <= default_fuel (nesting depth below the fuel).
-   Still missing from the full statement: bytes / arrays / sparse / dtype / RNG / masked arrays (file-bearing leaves:
-   the member lookup by name needs the injectivity of the id rendering -- proved in ShowFacts.v -- threaded through the
-   SaveContext), functools.partial and object arrays.  The statement is about the entry points: dumps_model (incl. the root
+   Still missing from the full statement: bytes / bytearray (uuid-named members), object arrays, scipy sparse
+   *arrays* (object path).  The statement is about the entry points: dumps_model (incl. the root
    fields protocol/_skops_version of _save) does not raise and loads_model returns v.  The missing kinds are covered by the per-case evaluation `c05_case_same`
    and by the correspondence with the implementation (harness/props/c05.py). *)
 Theorem C05_roundtrip_partial :
